@@ -601,6 +601,7 @@ where
             }
             Some(_) => {
                 let mut recorder = crate::path_map::PathRecorder::new();
+                let served = src.served();
                 let value_res = crate::anchor_store::with_document_scope(|| {
                     T::deserialize(crate::de::YamlDeserializer::new_with_path_recorder(
                         &mut src,
@@ -612,6 +613,10 @@ where
                     Ok(v) => v,
                     Err(e) => return Err(maybe_with_snippet(e, input, with_snippet, crop_radius)),
                 };
+                // A target type that read nothing must not be handed the same event again.
+                if src.served() == served {
+                    src.skip_to_next_document();
+                }
 
                 match Validate::validate(&value) {
                     Ok(()) => {
@@ -862,6 +867,7 @@ where
                     }
                     Ok(Some(_)) => {
                         let mut recorder = crate::path_map::PathRecorder::new();
+                        let served = self.src.served();
                         let value_res = crate::anchor_store::with_document_scope(|| {
                             T::deserialize(crate::de::YamlDeserializer::new_with_path_recorder(
                                 &mut self.src,
@@ -881,6 +887,10 @@ where
                             }
                         };
 
+                        // A target type that read nothing must not be handed the same event again.
+                        if self.src.served() == served && !self.src.skip_to_next_document() {
+                            self.finished = true;
+                        }
                         match Validate::validate(&value) {
                             Ok(()) => return Some(Ok(value)),
                             Err(report) => {
@@ -1028,6 +1038,7 @@ where
             }
             Some(_) => {
                 let mut recorder = crate::path_map::PathRecorder::new();
+                let served = src.served();
                 let value_res = crate::anchor_store::with_document_scope(|| {
                     T::deserialize(crate::de::YamlDeserializer::new_with_path_recorder(
                         &mut src,
@@ -1039,6 +1050,10 @@ where
                     Ok(v) => v,
                     Err(e) => return Err(maybe_with_snippet(e, input, with_snippet, crop_radius)),
                 };
+                // A target type that read nothing must not be handed the same event again.
+                if src.served() == served {
+                    src.skip_to_next_document();
+                }
 
                 match ValidatorValidate::validate(&value) {
                     Ok(()) => {
@@ -1279,6 +1294,7 @@ where
                     }
                     Ok(Some(_)) => {
                         let mut recorder = crate::path_map::PathRecorder::new();
+                        let served = self.src.served();
                         let value_res = crate::anchor_store::with_document_scope(|| {
                             T::deserialize(crate::de::YamlDeserializer::new_with_path_recorder(
                                 &mut self.src,
@@ -1298,6 +1314,10 @@ where
                             }
                         };
 
+                        // A target type that read nothing must not be handed the same event again.
+                        if self.src.served() == served && !self.src.skip_to_next_document() {
+                            self.finished = true;
+                        }
                         match ValidatorValidate::validate(&value) {
                             Ok(()) => return Some(Ok(value)),
                             Err(errors) => {
@@ -1475,6 +1495,7 @@ pub fn from_multiple_with_options<T: DeserializeOwned>(
                 return Err(maybe_with_snippet(err, input, with_snippet, crop_radius));
             }
             Some(_) => {
+                let served = src.served();
                 let value_res = crate::anchor_store::with_document_scope(|| {
                     T::deserialize(crate::de::YamlDeserializer::new(&mut src, cfg))
                 });
@@ -1483,6 +1504,10 @@ pub fn from_multiple_with_options<T: DeserializeOwned>(
                     Err(e) => return Err(maybe_with_snippet(e, input, with_snippet, crop_radius)),
                 };
                 values.push(value);
+                // A target type that read nothing must not be handed the same event again.
+                if src.served() == served {
+                    src.skip_to_next_document();
+                }
             }
             None => break,
         }
@@ -2045,19 +2070,21 @@ where
                         return Some(Err(err));
                     }
                     Ok(Some(_)) => {
+                        let served = self.src.served();
                         let res = crate::anchor_store::with_document_scope(|| {
                             T::deserialize(crate::de::YamlDeserializer::new(
                                 &mut self.src,
                                 self.cfg,
                             ))
                         });
-                        if res.is_err() {
-                            // After a deserialization error, skip remaining events in the
-                            // current document and try to recover at the next document boundary.
-                            // If no next document is found, mark as finished.
-                            if !self.src.skip_to_next_document() {
-                                self.finished = true;
-                            }
+                        // After a deserialization error, skip remaining events in the current
+                        // document and try to recover at the next document boundary; likewise
+                        // after a target type that read nothing (it must not be handed the same
+                        // event again). If no next document is found, mark as finished.
+                        if (res.is_err() || self.src.served() == served)
+                            && !self.src.skip_to_next_document()
+                        {
+                            self.finished = true;
                         }
                         return Some(res);
                     }
